@@ -3,6 +3,7 @@ From Coq Require Import ZArith List Bool Permutation.
 From B2Z Require Import Base.Prims Model.Overlap Proofs.OverlapProofs Bridge.BridgeOverlap.
 From B2Z Require Gen.GenOverlap.
 From B2Z Require Import Gen.GenScan Bridge.BridgeScan.
+From B2Z Require Import Base.EncSkel Gen.GenEncoders Bridge.BridgeEncoders.
 Import ListNotations.
 Open Scope Z_scope.
 
@@ -86,3 +87,21 @@ Theorem translated_scan_order :
   && before STakeFirstHeader SHeadersEqualFirst && before SHeadersEqualFirst SSortPartitions = true.
 Proof. exact translated_scan_order_lemma. Qed.
 Print Assumptions translated_scan_order.
+
+(* the encode side of "filters used but not declared are rejected": encode_filters_partition as translated on this run
+   (translator/enc2coq.py): the record's row is cleared, then EVERY filter of the record is looked up in the header's filter
+   list; a filter that is not declared (None) ANYWHERE in the value -- alone, or after / before declared ones in a compound
+   value like q10;zz9 -- makes the conversion fail with ValueError ... *)
+Theorem translated_filter_row_rejects_undeclared : forall nf value, In None value -> gen_filter_row nf value = Err E_ValueError.
+Proof. exact translated_filter_row_rejects_undeclared_lemma. Qed.
+Print Assumptions translated_filter_row_rejects_undeclared.
+
+(* ... and when all are declared the row has one flag per declared filter, set exactly for the filters the record uses *)
+Theorem translated_filter_row_flags : forall nf value, Forall (fun f => exists i, f = Some i /\ (i < nf)%nat) value ->
+  exists row, gen_filter_row nf value = Ok row /\ length row = nf /\ forall k, (k < nf)%nat -> nth k row false = uses value k.
+Proof. exact translated_filter_row_flags_lemma. Qed.
+Print Assumptions translated_filter_row_flags.
+
+Example translated_filter_row_instance :
+  gen_filter_row 3 [Some 2; Some 0]%nat = Ok [true; false; true] /\ gen_filter_row 3 [Some 1; None]%nat = Err E_ValueError.
+Proof. vm_compute. split; reflexivity. Qed.
